@@ -227,6 +227,16 @@ class Crypto(object):
         def call(I2, args, kw):
             P = I2.path
             P.event('crypto', name, tuple(args), dict(kw))
+            if name == 'derive_key':
+                # assumed contract of the engine/library: a negative output length is not a KMIP
+                # error but an OverflowError from the key derivation function
+                from .sym import int_term as _it, is_symbolic as _sym
+                dl = I2.resolve_opt(kw.get('derivation_length'))
+                if dl is not None and not isinstance(dl, Opaque):
+                    neg = (_it(dl) < 0) if _sym(dl) else (dl < 0)
+                    if (neg is True) or (not isinstance(neg, bool) and P.branch(neg)):
+                        P.event('raise', 'OverflowError')
+                        raise _pyvc().Raised(ExcVal(OverflowError, ("can't convert negative int to unsigned",)))
             k = P.choose(3, "crypto-outcome")
             if k:
                 import kmip.core.exceptions as E
